@@ -8,7 +8,7 @@ from .common import Exc
 from .oracle_env import env_for
 
 THEOREMS = ["C19_youtube_ids_valid", "C19_instagram_ids_valid", "C19_telegram_ids_valid", "C19_truncated_routes",
-            "C19_parsers_total", "C19_routes_total", "C19_drive_roundtrip", "C19_youtube_roundtrip", "C19_wellformed_urls",
+            "C19_parsers_total", "C19_routes_total", "C19_drive_roundtrip", "C19_youtube_roundtrip", "C19_youtube_channel_name_roundtrip", "C19_wellformed_urls",
             "(record.url round trips for Facebook / YouTube and normalize_youtube_url idempotence: harness deciders over the route grammar + model correspondence — partial)"]
 REGEXES = ["YOUTUBE_VIDEO_ID_RE", "YOUTUBE_CHANNEL_ID_RE", "QUERY_V_RE", "NEXT_V_RE", "NESTED_NEXT_V_RE", "FRAGMENT_V_RE", "QUERY_LIST_RE",
            "TWITTER_URL_RE", "TWITTER_FRAGMENT_ROUTING_RE", "INSTAGRAM_POST_SHORTCODE_RE", "INSTAGRAM_USERNAME_RE", "INSTAGRAM_URL_RE",
